@@ -8,7 +8,7 @@ CONSTANTS
  VTab <- MC_VTabA
  CRange <- MC_CRange
  Reqs <- MC_Reqs2
- Menu <- MC_MenuQ1
+ Menu <- MC_MenuQ1b
  MaxConns = 3
  MaxMoves = 1
  MaxCancels = 0
